@@ -1087,17 +1087,21 @@ fn reset_calls() {
 fn stub_crtr<H: Host>(_: &mut Emulator<H>, d: &[u8]) {
     rec(1, NO_MID, d)
 }
-fn stub_z80r<H: Host>(_: &mut Emulator<H>, d: &[u8]) {
-    rec(2, NO_MID, d)
+fn stub_z80r<H: Host>(_: &mut Emulator<H>, d: &[u8]) -> Result<()> {
+    rec(2, NO_MID, d);
+    Ok(())
 }
-fn stub_spcr<H: Host>(_: &mut Emulator<H>, mid: u32, d: &[u8]) {
-    rec(3, mid, d)
+fn stub_spcr<H: Host>(_: &mut Emulator<H>, mid: u32, d: &[u8]) -> Result<()> {
+    rec(3, mid, d);
+    Ok(())
 }
-fn stub_keyb<H: Host>(_: &mut Emulator<H>, d: &[u8]) {
-    rec(4, NO_MID, d)
+fn stub_keyb<H: Host>(_: &mut Emulator<H>, d: &[u8]) -> Result<()> {
+    rec(4, NO_MID, d);
+    Ok(())
 }
-fn stub_amxm<H: Host>(_: &mut Emulator<H>, d: &[u8]) {
-    rec(5, NO_MID, d)
+fn stub_amxm<H: Host>(_: &mut Emulator<H>, d: &[u8]) -> Result<()> {
+    rec(5, NO_MID, d);
+    Ok(())
 }
 fn stub_ramp<H: Host>(_: &mut Emulator<H>, mid: u32, d: &[u8]) -> Result<()> {
     rec(6, mid, d);
